@@ -275,7 +275,8 @@ NotOf(A) == [k : {"not"}, a : A]
 PairPreds(pr) ==
   LET L == PairLeaves(pr)
       L2 == {q \in L : q.k = "cmp" /\ q.op \in {"lt", "le", "ge"}}     \* a small sub-alphabet for depth 2
-  IN NotOf(L) \cup Bin(L, L)
+      LA == {q \in L : q.c = 1}
+  IN NotOf(L) \cup Bin(LA, L)
      \cup (IF Depth2 THEN NotOf(Bin(L2, L2)) \cup Bin(Bin(L2, L2), L2) \cup Bin(NotOf(L2), L2) ELSE {})
 Preds(pr) == IF Family = "leaf" THEN LeafPreds(pr) ELSE PairPreds(pr)
 
